@@ -101,6 +101,13 @@ pub fn selftest() -> i32 {
             code = 2;
         }
     }
+    match crate::refm::exact::self_test() {
+        Ok(n) => println!("selftest exact: ok ({n} comparisons)"),
+        Err(e) => {
+            println!("selftest exact: FAILED {e}");
+            code = 2;
+        }
+    }
     match crate::refm::tz::self_test() {
         Ok(n) => println!("selftest tz: ok ({n} comparisons)"),
         Err(e) => {
